@@ -252,27 +252,7 @@ def precedence(check, prog):
     it = Interp(prog, max_depth=2, opaque=[RM])
     res = it.analyze(q)
     v = res.ret
-    keys = []
-    okall = v[0] == 'dict'
-    if okall:
-        for k, val in v[1]:
-            key = k[1]
-            keys.append(key)
-            mv = intern(('idx', om, ('const', key)))
-            dv = intern(('attr', sym('schema'), key))
-            good = False
-            for x in subterms(val):
-                if x[0] == 'ite' and x[2] == mv:
-                    rest = x[3]
-                    good = any(y == dv for y in subterms(rest)) and any(
-                        y == ('cmp', 'is not', mv, NONE) for y in subterms(x[1]))
-            check.require(good, 'P5-optics-precedence', 'Model._find_optics[%s]' % key,
-                          "the model's %s if set, otherwise the data's" % key, loc,
-                          fail_detail='%s = %s' % (key, show(val)[:200]))
-    check.require(okall and sorted(keys) == ['illum_polarization', 'illum_wavelen',
-                                             'medium_index'], 'P5-optics-precedence',
-                  'Model._find_optics keys', 'returns the three optics fields', loc,
-                  fail_detail='keys %s' % keys)
+    # per-key precedence and the key set: see precedence_tables
 
 
 def precedence_tables(check, prog):
@@ -288,27 +268,71 @@ def precedence_tables(check, prog):
     fd = prog.func(q)
     loc = prog.loc(q, fd)
     it = Interp(prog, max_depth=1, opaque=[RM])
-    it.analyze(q)
-    ok = len(it.closures) == 1
-    detail = '%d inner functions' % len(it.closures)
-    rows = 0
-    if ok:
+    res0 = it.analyze(q)
+    from hpstatic.logic import eval3
+    KEYS = ('medium_index', 'illum_wavelen', 'illum_polarization')
+
+    def atoms_for(key):
+        K = intern(('const', key))
+        mv = intern(('idx', om, K))
+        dv = intern(('attr', schema, key))
+        return (K, mv, dv,
+                intern(('cmp', 'in', K, om)),
+                intern(('cmp', 'is not', mv, NONE)),
+                intern(('call', 'hasattr', (schema, K), ())),
+                intern(('cmp', 'is not', dv, NONE)))
+
+    def entry(t, key, hyp):
+        """value stored under `key` in a dictionary-valued term (dict literal or
+        a chain of item stores), following the conditionals the hypothesis decides"""
+        while True:
+            if t[0] == 'ite':
+                c = eval3(t[1], hyp)
+                if c is None:
+                    return None
+                t = t[2] if c else t[3]
+            elif t[0] == 'upd' and t[2] == 'item':
+                if t[3] == key:
+                    return select(t[4], hyp)
+                t = t[1]
+            elif t[0] == 'dict':
+                for k_, v_ in t[1]:
+                    if k_ == key:
+                        return select(v_, hyp)
+                return None
+            else:
+                return t if t[0] == 'raise' else None
+    if len(it.closures) == 1:
+        # helper-function form: one closure evaluated per key
         (node_c, cenv, cframe), = it.closures.values()
         fr = Frame(cframe.module, cframe.owner, cframe.selfcls, cframe.selfname, 0,
                    q + '.<key>')
-        K = intern(('const', 'K'))
-        v = it.inline_closure(node_c, cenv, cframe, [K], {}, fr, (), keep_raises=True)
-        mv = intern(('idx', om, K))
-        dv = intern(('attr', schema, 'K'))
-        A = intern(('cmp', 'in', K, om))
-        B = intern(('cmp', 'is not', mv, NONE))
-        C = intern(('call', 'hasattr', (schema, K), ()))
-        D = intern(('cmp', 'is not', dv, NONE))
+
+        def value(key, asg):
+            K = intern(('const', key))
+            v_ = it.inline_closure(node_c, cenv, cframe, [K], {}, fr, (),
+                                   keep_raises=True)
+            return select(v_, lambda t: asg.get(t))
+    else:
+        # loop form: the whole function, the other keys being available
+        whole = res0.ret_with_raises
+
+        def value(key, asg):
+            full = dict(asg)
+            for other in KEYS:
+                if other != key:
+                    _, _, _, A_, B_, C_, D_ = atoms_for(other)
+                    full.update({A_: True, B_: True, C_: True, D_: True})
+            return entry(whole, intern(('const', key)), lambda t: full.get(t))
+    ok = True
+    detail = ''
+    rows = 0
+    for key in KEYS:
+        K, mv, dv, A, B, C, D = atoms_for(key)
         for a, b, c, d in itertools.product((True, False), repeat=4):
             if (b and not a) or (d and not c):
                 continue          # a value can only be tested where it exists
-            asg = {A: a, B: b, C: c, D: d}
-            leaf = select(v, lambda t: asg.get(t))
+            leaf = value(key, {A: a, B: b, C: c, D: d})
             rows += 1
             if a and b:
                 good = leaf == mv
@@ -317,11 +341,30 @@ def precedence_tables(check, prog):
             else:
                 good = leaf is not None and leaf[0] == 'raise' and \
                     'MissingParameter' in show(leaf)
-            if not good:
+            if not good and ok:
                 ok = False
-                detail = 'model has it=%s (set=%s), data has it=%s (set=%s): %s' % (
-                    a, b, c, d, show(leaf)[:80] if leaf else 'undecided')
-                break
+                detail = '%s: model has it=%s (set=%s), data has it=%s (set=%s): %s' % (
+                    key, a, b, c, d, show(leaf)[:80] if leaf else 'undecided')
+    # exactly the three optics fields are produced
+    produced = set()
+
+    def keys_of(t):
+        if t[0] == 'ite':
+            keys_of(t[2])
+            keys_of(t[3])
+        elif t[0] == 'upd' and t[2] == 'item':
+            if t[3][0] == 'const':
+                produced.add(t[3][1])
+            keys_of(t[1])
+        elif t[0] == 'dict':
+            for k_, v_ in t[1]:
+                if k_[0] == 'const':
+                    produced.add(k_[1])
+    it2 = Interp(prog, max_depth=2, opaque=[RM])
+    keys_of(it2.analyze(q).ret)
+    if produced != set(KEYS) and ok:
+        ok = False
+        detail = 'fields produced: %s' % sorted(produced)
     check.require(ok, 'P5-optics-precedence', 'Model._find_optics table',
                   "the model's value if present and not None; else the data's if "
                   'present and not None; else MissingParameter (%d rows)' % rows, loc,
